@@ -315,7 +315,7 @@ def execute(schedule, ctx):
         for sid, sm in subs.items():
             probes.get_ctl(sm).arm(op['plans'].get(sid), bus, sid)
         snap = snapshot_all(L)
-        kw = dict(opts)
+        kw = S.solver_kwargs(opts)
         if select is not None:
             kw['submodels'] = list(select)
         try:
@@ -504,7 +504,7 @@ def do_twin(fsic, spec, op, ctx, chk):
     LK = fsic.BaseLinker({'A': inner})
     n = len(bare.__dict__['span'])
     t = min(op['t'], n - 1)
-    opts = dict(op['opts'])
+    opts = S.solver_kwargs(op['opts'])
     if opts['offset'] and not (0 <= t + opts['offset'] < n):
         opts['offset'] = 0
     probes.get_ctl(bare).arm(op['plan'])
